@@ -10,6 +10,11 @@ CHECKS = {
             'bounded-exhaustive term enumeration vs reference model (Python int)'),
 }
 
+CHECKS['C18'] = ('model_checking', '§5 C18',
+    'Every string builtin on every string of <=3 characters over an alphabet mixing 1-4 byte characters, combining marks and case-expanding characters (plus 20 longer strings), with every index in {-len-1..len+5} and every 1-2 character needle, compared in lock-step with Python str; every literal spelling of <=3 pieces x quote kind x fence depth 0-2 x prefix {plain, r, f} compared with a reference unescaper; each string result is re-probed (len, chars, concatenation).',
+    'Python str/upper/lower are the reference; out-of-range slices may be an error or the clamped slice; \\u{..} inside f-strings is treated as unspecified.',
+    'bounded-exhaustive term enumeration vs reference model (Python str)')
+
 NA = {
 }
 
